@@ -223,6 +223,7 @@ class Reference:
         if self.defect:
             M = Gs.T @ Gs
             sv = np.linalg.svd(M, compute_uv=False)
+            self.subset_sv = float(sv[-1])      # smallest eigenvalue of Gs'Gs (1 = all unknowns, 0 = unresolved)
             self.subset_ok = bool(sv[-1] > 1e-3)
             if self.subset_ok:
                 self.T = np.eye(n) - self.G @ np.linalg.solve(M, Gs.T)
@@ -230,6 +231,7 @@ class Reference:
                 self.T = None
         else:
             self.subset_ok = True
+            self.subset_sv = 1.0
             self.T = np.eye(n)
         if self.T is not None:
             self.x = self.T @ self.xp
